@@ -5,6 +5,7 @@ import QipVerif.Model.Concat
 
 * `proc w=<wave>`                                     → `ok <mode> <step> <gate_tlist> <coeffs>` | `err <kind>`
 * `idle mode=d|c start=r last=r step=r`               → `ok <tlist>` | `err <kind>`
+* (`skipzero=1` on `concat` / `compile`: fixes/C12-2.patch, a channel without pulse is printed `~`; `dropzero=1` on `compile`: zero-duration instructions dropped before scheduling)
 * `concat first=tol|struct tau=r chans=<chan>!<chan>…` → `ok <tlist>:<coeffs>!…` | `err <kind>`
      `<chan>` = `<start>@<wave>;<start>@<wave>;…` (`-` for a channel without instruction),
      `<wave>` = `s:<t>:<c>` | `a:<t,t,…>:<c,c,…>` | `m:<t,t,…>:<c>`
@@ -70,6 +71,10 @@ def first? (fs : List String) : Option Bool :=
   | _ => none
 
 def showChan (r : List Rat × List Rat) : String := showRats r.1 ++ ":" ++ showRats r.2
+def showChanO : Option (List Rat × List Rat) → String
+  | some r => showChan r
+  | none => "~"
+def skipZ (fs : List String) : Bool := fNat? fs "skipzero" = some 1
 
 def step (line : String) : String :=
   let fs := fields line
@@ -92,12 +97,22 @@ def step (line : String) : String :=
   | some "concat" =>
     match first? fs, fRat? fs "tau", (fStr? fs "chans").bind (fun s => (s.splitOn "!").mapM chan?) with
     | some bt, some τ, some chans =>
+      if skipZ fs then
+        match concatenateZ bt τ chans with
+        | .error e => "err " ++ errName e
+        | .ok outs => "ok " ++ "!".intercalate (outs.map showChanO)
+      else
       match concatenate bt τ chans with
       | .error e => "err " ++ errName e
       | .ok outs => "ok " ++ "!".intercalate (outs.map showChan)
     | _, _, _ => if fStr? fs "chans" = none then
         (match first? fs, fRat? fs "tau" with
-          | some bt, some τ => match concatenate bt τ [] with
+          | some bt, some τ =>
+            if skipZ fs then
+              match concatenateZ bt τ [] with
+              | .error e => "err " ++ errName e
+              | .ok outs => "ok " ++ "!".intercalate (outs.map showChanO)
+            else match concatenate bt τ [] with
             | .error e => "err " ++ errName e
             | .ok outs => "ok " ++ "!".intercalate (outs.map showChan)
           | _, _ => "bad-op") else "bad-op"
@@ -114,6 +129,14 @@ def step (line : String) : String :=
       match sch with
       | none => "bad-op"
       | some sch =>
+        if skipZ fs ∨ fNat? fs "dropzero" = some 1 then
+          match compileV (fNat? fs "dropzero" = some 1) (skipZ fs) bt τ instrs sch with
+          | none => "unmodelled"
+          | some (.error e) => "err " ++ errName e
+          | some (.ok none) => "ok none"
+          | some (.ok (some outs)) =>
+            "ok " ++ "!".intercalate (outs.map fun o => toString o.1 ++ ":" ++ showChanO o.2)
+        else
         match compile bt τ instrs sch with
         | none => "unmodelled"
         | some (.error e) => "err " ++ errName e
